@@ -46,6 +46,9 @@ type Cond = Arc<dyn Fn() -> bool + Send + Sync>;
 #[derive(Clone)]
 pub enum Pending {
     Start,
+    /// after a write access (only with RunConfig::yield_after): the plain accesses that follow a
+    /// publishing store are separated from it by a scheduling point
+    After,
     Atomic(SiteInfo),
     Api(String),
     Blocked(String, Cond),
@@ -55,6 +58,7 @@ impl Pending {
     pub fn describe(&self) -> String {
         match self {
             Pending::Start => "start".into(),
+            Pending::After => "after".into(),
             Pending::Atomic(s) => format!("{}@{}+{} {}:{}", s.kind, s.range, s.off, short(s.file), s.line),
             Pending::Api(a) => format!("api:{a}"),
             Pending::Blocked(a, _) => format!("blocked:{a}"),
@@ -95,6 +99,7 @@ struct Inner {
     cv: Condvar,
     ranges: Vec<(usize, usize)>,
     record_atoms: bool,
+    yield_after: bool,
 }
 
 thread_local! {
@@ -174,17 +179,25 @@ fn pre_hook(s: &Site) {
 fn post_hook(s: &Site, rd: u64, wr: u64, ok: bool) {
     if let Some((tid, inner)) = ctx() {
         if !inner.record_atoms {
+            if inner.yield_after && s.kind.is_write() && ok && inner.site_info(s).is_some() {
+                inner.do_yield(tid, Pending::After);
+            }
             return;
         }
         if let Some(info) = inner.site_info(s) {
-            let mut st = inner.m.lock().unwrap();
-            st.log.push(LogEntry::Atom {
-                tid,
-                site: info,
-                rd,
-                wr,
-                ok,
-            });
+            {
+                let mut st = inner.m.lock().unwrap();
+                st.log.push(LogEntry::Atom {
+                    tid,
+                    site: info,
+                    rd,
+                    wr,
+                    ok,
+                });
+            }
+            if inner.yield_after && s.kind.is_write() && ok {
+                inner.do_yield(tid, Pending::After);
+            }
         }
     }
 }
@@ -255,6 +268,8 @@ pub struct RunConfig {
     pub ranges: Vec<(usize, usize)>,
     pub max_steps: usize,
     pub record_atoms: bool,
+    /// additionally yield after every successful write access
+    pub yield_after: bool,
 }
 
 impl Default for RunConfig {
@@ -263,6 +278,7 @@ impl Default for RunConfig {
             ranges: vec![],
             max_steps: 10_000,
             record_atoms: true,
+            yield_after: false,
         }
     }
 }
@@ -284,6 +300,7 @@ pub fn run(cfg: RunConfig, bodies: Vec<Body>, strat: &mut dyn Strategy) -> RunRe
         cv: Condvar::new(),
         ranges: cfg.ranges.clone(),
         record_atoms: cfg.record_atoms,
+        yield_after: cfg.yield_after,
     });
 
     let mut handles = vec![];
